@@ -14,9 +14,10 @@
 (*         files, request timeout);                                        *)
 (*   (iii) the registered-key directory;                                   *)
 (*   (iv)  the forwarded agent: identity set, answer class to the proof-   *)
-(*         of-possession challenge, the request index at which its         *)
-(*         connection dies;                                                *)
-(*   (v)   the CA endpoints: identity class x outcome.                     *)
+(*         of-possession challenge, the request index at which it fails    *)
+(*         (connection closed / failure reply);                            *)
+(*   (v)   the CA endpoints: identity class x outcome (signs k             *)
+(*         certificates / rpc error / unparsable reply / no answer).       *)
 (*                                                                         *)
 (* Steps:  OpenLog/LoadConfig -> NewReqParam -> ConnectAgent ->            *)
 (* CreateHandlers -> NewSigner -> Run( Auth -> Challenge -> GenKey ->      *)
@@ -54,9 +55,10 @@ VARIABLES pc,      \* control state
           hs,      \* handlers created from the configuration
           ei,      \* endpoint index of the fail-over loop
           certs,   \* certificates returned by the CA
-          todo     \* identities Refresh still has to remove
+          todo,    \* identities Refresh still has to remove
+          expired  \* the request timeout of the run has passed
 
-vars == <<pc, sc, ag, r, pre, nreq, dead, hs, ei, certs, todo>>
+vars == <<pc, sc, ag, r, pre, nreq, dead, hs, ei, certs, todo, expired>>
 
 ---------------------------------------------------------------------------
 \* data
@@ -92,43 +94,43 @@ EmptyObs == [exit |-> 0 - 1, crash |-> FALSE, chal |-> <<>>, recv |-> <<<<>>, <<
 \* the design
 Init == /\ sc \in Scenarios /\ pc = "openlog"
         /\ ag = PreAgent(sc.pa) /\ pre = [ag |-> PreAgent(sc.pa), seen |-> {x.k : x \in PreAgent(sc.pa)}]
-        /\ r = EmptyObs /\ nreq = 0 /\ dead = FALSE /\ hs = <<>> /\ ei = 1 /\ certs = <<>> /\ todo = {}
+        /\ r = EmptyObs /\ nreq = 0 /\ dead = FALSE /\ hs = <<>> /\ ei = 1 /\ certs = <<>> /\ todo = {} /\ expired = FALSE
 
 Exit(rr, code, st) == r' = [rr EXCEPT !.exit = code, !.stage = st] /\ pc' = "done"
 Keep(v) == UNCHANGED v
 Served == ~dead /\ (sc.die = 0 \/ nreq + 1 # sc.die)      \* the next agent request is answered
 AgentReq == nreq' = (IF dead THEN nreq ELSE nreq + 1)
-Dies == dead' = (dead \/ ~Served)
+Dies == dead' = (dead \/ (~Served /\ sc.dk = "close"))   \* a failure reply (dk = "fail") leaves the connection usable
 KeyTag == "K1"
 CertTag(j, m) == "c" \o ToString(j) \o "_" \o ToString(m)
 
 OpenLog ==
   /\ pc = "openlog"
   /\ IF sc.logf = "ok" THEN pc' = "loadconf" /\ r' = r ELSE Exit(r, 1, "log")
-  /\ UNCHANGED <<sc, ag, pre, nreq, dead, hs, ei, certs, todo>>
+  /\ UNCHANGED <<sc, ag, pre, nreq, dead, hs, ei, certs, todo, expired>>
 
 LoadConfig ==
   /\ pc = "loadconf"
   /\ IF sc.cfile = "ok" THEN pc' = "reqparam" /\ r' = r ELSE Exit(r, 1, "conf")
-  /\ UNCHANGED <<sc, ag, pre, nreq, dead, hs, ei, certs, todo>>
+  /\ UNCHANGED <<sc, ag, pre, nreq, dead, hs, ei, certs, todo, expired>>
 
 \* from here on every log line names the transaction id
 NewReqParam ==
   /\ pc = "reqparam"
   /\ IF ParamsValid(sc) THEN pc' = "connagent" /\ r' = [r EXCEPT !.logtid = "yes"] ELSE Exit(r, 1, "param")
-  /\ UNCHANGED <<sc, ag, pre, nreq, dead, hs, ei, certs, todo>>
+  /\ UNCHANGED <<sc, ag, pre, nreq, dead, hs, ei, certs, todo, expired>>
 
 ConnectAgent ==
   /\ pc = "connagent"
   /\ IF sc.sock = "ok" THEN pc' = "handlers" /\ r' = r ELSE Exit(r, 1, "sock")
-  /\ UNCHANGED <<sc, ag, pre, nreq, dead, hs, ei, certs, todo>>
+  /\ UNCHANGED <<sc, ag, pre, nreq, dead, hs, ei, certs, todo, expired>>
 
 \* a handler that cannot be created is skipped with a warning, never fatal
 CreateHandlers ==
   /\ pc = "handlers"
   /\ hs' = IF sc.hsec = "present" THEN <<"regular">> ELSE <<>>
   /\ pc' = "signer"
-  /\ UNCHANGED <<sc, ag, r, pre, nreq, dead, ei, certs, todo>>
+  /\ UNCHANGED <<sc, ag, r, pre, nreq, dead, ei, certs, todo, expired>>
 
 \* NewSigner: TLS files are loaded, the endpoint list must be configured; an EMPTY list may be refused here or at signing
 NewSigner ==
@@ -139,7 +141,7 @@ NewSigner ==
         /\ Exit(r, 1, "signer")
      \/ /\ sc.tls = "ok" /\ ~(sc.eps = <<>> /\ sc.epform = "absent")
         /\ pc' = "auth" /\ r' = r
-  /\ UNCHANGED <<sc, ag, pre, nreq, dead, hs, ei, certs, todo>>
+  /\ UNCHANGED <<sc, ag, pre, nreq, dead, hs, ei, certs, todo, expired>>
 
 \* --- gensign.Run -----------------------------------------------------------
 Auth ==
@@ -148,7 +150,7 @@ Auth ==
      ELSE IF sc.pol = "NONS" /\ ~sc.hard /\ Registered(sc.dir) \notin {"none", "bad"}
           THEN pc' = "chal" /\ r' = r
           ELSE Exit(r, 0, "noauth")
-  /\ UNCHANGED <<sc, ag, pre, nreq, dead, hs, ei, certs, todo>>
+  /\ UNCHANGED <<sc, ag, pre, nreq, dead, hs, ei, certs, todo, expired>>
 
 \* the agent is asked to sign a fresh challenge with the registered key of the login name
 Challenge ==
@@ -158,34 +160,37 @@ Challenge ==
          rr   == [r EXCEPT !.chal = Append(@, [key |-> reg, good |-> good])]
      IN IF good THEN pc' = "genkey" /\ r' = rr
         ELSE Exit(rr, 0, IF Served /\ sc.ans = "wrongkind" THEN "panic" ELSE "noauth")
-  /\ dead' = (dead \/ ~Served \/ sc.ans = "close")
-  /\ UNCHANGED <<sc, ag, pre, hs, ei, certs, todo>>
+  /\ dead' = (dead \/ (~Served /\ sc.dk = "close") \/ sc.ans = "close")
+  /\ UNCHANGED <<sc, ag, pre, hs, ei, certs, todo, expired>>
 
 \* Generate: a fresh key pair is inserted into the agent (with a lifetime) ...
 GenKey ==
   /\ pc = "genkey" /\ AgentReq /\ Dies
   /\ IF Served THEN ag' = ag \cup {Id(KeyTag, "key", KeyTag, "-", "ra")} /\ pc' = "kid" /\ r' = r
      ELSE ag' = ag /\ Exit(r, 0, "gen")
-  /\ UNCHANGED <<sc, pre, hs, ei, certs, todo>>
+  /\ UNCHANGED <<sc, pre, hs, ei, certs, todo, expired>>
 
 \* ... then the CA key slot for the requested algorithm is looked up
 KeyIdentifier ==
   /\ pc = "kid"
   /\ IF KidConfigured(sc) THEN pc' = "sign" /\ ei' = 1 /\ r' = r ELSE Exit(r, 0, "kid") /\ ei' = ei
-  /\ UNCHANGED <<sc, ag, pre, nreq, dead, hs, certs, todo>>
+  /\ UNCHANGED <<sc, ag, pre, nreq, dead, hs, certs, todo, expired>>
 
-\* Sign: the endpoints in configured order; an impostor never sees the request; the first success ends the loop
+\* Sign: the endpoints in configured order; an impostor never sees the request; the first success ends the loop; an
+\* endpoint that does not answer costs the per-try timeout, and when the request timeout of the run is tight it has passed
+\* by then: nothing is sent any more
 Sign ==
   /\ pc = "sign"
-  /\ IF ei > Len(sc.eps) THEN Exit(r, 0, "sign") /\ UNCHANGED <<ei, certs>>
+  /\ IF ei > Len(sc.eps) THEN Exit(r, 0, "sign") /\ UNCHANGED <<ei, certs, expired>>
      ELSE LET e == sc.eps[ei] IN
-          IF ~Genuine(e) THEN ei' = ei + 1 /\ pc' = "sign" /\ UNCHANGED <<r, certs>>
+          IF ~Genuine(e) \/ expired THEN ei' = ei + 1 /\ pc' = "sign" /\ UNCHANGED <<r, certs, expired>>
           ELSE LET rr == [r EXCEPT !.recv[ei] = Append(@, CsrOf(sc, KeyTag))] IN
                IF e.out = "sign"
                THEN /\ certs' = [m \in 1..e.k |-> CertTag(ei, m)]
                     /\ r' = [rr EXCEPT !.ret[ei] = [m \in 1..e.k |-> CertTag(ei, m)]]
-                    /\ pc' = "list" /\ ei' = ei
-               ELSE r' = rr /\ ei' = ei + 1 /\ pc' = "sign" /\ certs' = certs
+                    /\ pc' = "list" /\ ei' = ei /\ expired' = expired
+               ELSE /\ r' = rr /\ ei' = ei + 1 /\ pc' = "sign" /\ certs' = certs
+                    /\ expired' = (e.out = "hang" /\ sc.rt = "tight")
   /\ UNCHANGED <<sc, ag, pre, nreq, dead, hs, todo>>
 
 \* AddCertsToAgent: Refresh (list, remove the identities labelled with the handler name), then add every certificate
@@ -193,7 +198,7 @@ List ==
   /\ pc = "list" /\ AgentReq /\ Dies
   /\ IF Served THEN todo' = {x \in ag : x.lb = "R"} /\ pc' = "remove" /\ r' = r
      ELSE todo' = todo /\ Exit(r, 0, "agent")
-  /\ UNCHANGED <<sc, ag, pre, hs, ei, certs>>
+  /\ UNCHANGED <<sc, ag, pre, hs, ei, certs, expired>>
 
 Remove ==
   /\ pc = "remove"
@@ -202,7 +207,7 @@ Remove ==
           /\ \E x \in RemovePick(todo) :
                IF Served THEN ag' = ag \ {x} /\ todo' = todo \ {x} /\ pc' = "remove" /\ r' = r
                ELSE ag' = ag /\ todo' = todo /\ Exit(r, 0, "agent")
-  /\ UNCHANGED <<sc, pre, hs, certs>>
+  /\ UNCHANGED <<sc, pre, hs, certs, expired>>
 
 Add ==
   /\ pc = "add"
@@ -210,7 +215,7 @@ Add ==
      ELSE /\ AgentReq /\ Dies
           /\ IF Served THEN ag' = ag \cup {Id(certs[ei], "cert", KeyTag, "R", "ra")} /\ ei' = ei + 1 /\ pc' = "add" /\ r' = r
              ELSE ag' = ag /\ ei' = ei /\ Exit(r, 0, "agent")
-  /\ UNCHANGED <<sc, pre, hs, certs, todo>>
+  /\ UNCHANGED <<sc, pre, hs, certs, todo, expired>>
 
 Next == OpenLog \/ LoadConfig \/ NewReqParam \/ ConnectAgent \/ CreateHandlers \/ NewSigner
         \/ Auth \/ Challenge \/ GenKey \/ KeyIdentifier \/ Sign \/ List \/ Remove \/ Add
@@ -289,6 +294,8 @@ TypeOK == /\ pc \in {"openlog", "loadconf", "reqparam", "connagent", "handlers",
 \* fatal (exit 1) exactly when the process ends before Run
 ExitClass == Done => (r.exit = 1 <=> r.stage \in {"log", "conf", "param", "sock", "signer"})
 \* a fully good scenario ends with every certificate of the first good endpoint in the agent
-FullyGood(s, p) == /\ ~EarlyBad(s, p) /\ KidConfigured(s) /\ s.die = 0 /\ \E j \in DOMAIN s.eps : Good(s.eps[j])
+Stalls(s, e) == Genuine(e) /\ e.out = "hang" /\ s.rt = "tight"
+FullyGood(s, p) == /\ ~EarlyBad(s, p) /\ KidConfigured(s) /\ s.die = 0
+                   /\ \E j \in DOMAIN s.eps : Good(s.eps[j]) /\ \A m \in 1..(j - 1) : ~Stalls(s, s.eps[m])
 GoodSucceeds == (Done /\ FullyGood(sc, pre)) => (r.stage = "ok" /\ Signed(sc, r))
 =============================================================================
